@@ -123,6 +123,18 @@ func runC08(c *Ctx) error {
 			}
 		}
 	}
+	// (a') the same matrix row for the types whose source is read, with a source that is a symbolic link in the build
+	// tree (LICENSE -> ../LICENSE.md is common): the rpm-only types keep their type and flag
+	for _, ty := range []string{"", "config", "config|noreplace", "doc", "licence", "license", "readme"} {
+		for _, link := range []string{"links/ln", "links/unclean"} {
+			e := wire.Content{Src: filepath.Join(tree.Root, link), Dst: "/usr/share/doc/app/entry", Type: ty}
+			s := &PkgSpec{Raw: []wire.Content{{Src: filepath.Join(tree.Root, "bin/tool"), Dst: "/usr/bin/plain"}, e}, Umask: 0o022, MTime: 1700000000,
+				Describe: map[string]any{"matrix": ty + "/source-is-a-symlink:" + link}}
+			for _, f := range Formats {
+				typingCase(c, fam, s, f)
+			}
+		}
+	}
 	// (c) the same entry types through the route a user's nfpm.yaml takes: parsed with the strict parser,
 	// with and without `expand: true` and ${VAR} references in src/dst (expansion must not touch the type)
 	for _, ty := range []string{"", "file", "config", "config|noreplace", "config|missingok", "ghost", "doc", "licence", "license", "readme", "symlink", "dir"} {
